@@ -34,6 +34,11 @@ static uint64_t scenario(int tid)
         pr = ps; pr.ssrc.type = ssrc_any_inbound;
         pe = ps; pe.ssrc.type = ssrc_specific; pe.ssrc.value = 0x1000u + (unsigned)tid; pe.key = key2;
         pe.rtp = ps.rtp; pe.rtcp = ps.rtcp;
+        /* header-extension encryption (RFC 6904) on every round, cryptex on every third */
+        uint8_t xids[2] = { 1, 3 };
+        ps.enc_xtn_hdr = xids; ps.enc_xtn_hdr_count = 2; pr.enc_xtn_hdr = xids; pr.enc_xtn_hdr_count = 2;
+        pe.enc_xtn_hdr = xids; pe.enc_xtn_hdr_count = 2;
+        if ((tid + r) % 3 == 0) { ps.use_cryptex = true; pr.use_cryptex = true; pe.use_cryptex = true; }
         ps.next = &pe; pr.next = NULL;
         srtp_t snd = NULL, rcv = NULL;
         srtp_err_status_t st = srtp_create(&snd, &ps);
@@ -50,6 +55,11 @@ static uint64_t scenario(int tid)
             pkt[0] = 0x80; pkt[1] = 96; pkt[2] = (uint8_t)(k >> 8); pkt[3] = (uint8_t)(k + 1);
             pkt[8] = ssrc >> 24; pkt[9] = ssrc >> 16; pkt[10] = ssrc >> 8; pkt[11] = ssrc;
             for (int i = 12; i < 60; i++) pkt[i] = (uint8_t)(i * (k + 3) + tid);
+            if (k & 1) {
+                /* one-byte header extension: elements id 1 (3 octets), id 2 (2 octets), id 3 (1 octet), padding */
+                pkt[0] = 0x90; pkt[12] = 0xbe; pkt[13] = 0xde; pkt[14] = 0; pkt[15] = 3;
+                pkt[16] = 0x12; pkt[20] = 0x21; pkt[23] = 0x30; pkt[25] = 0; pkt[26] = 0; pkt[27] = 0;
+            }
             size_t len = sizeof pkt;
             st = srtp_protect(snd, pkt, 60, pkt, &len, 0);
             h = fnv(h, &st, sizeof st);
